@@ -766,7 +766,15 @@ def node_round_structure(prog):
     return out
 
 
-def message_statelessness(prog):
+def node_instance_state(prog):
+    """struct.node-state-per-instance[...] (AST obligations on the package diameter.node): no function writes a module-level
+    or class-level mutable object - the tables of Node, Application and PeerConnection objects belong to one object each
+    (the contracts describe them as fields of `self`; a table shared through the class would make one application's
+    pending answers visible to another)."""
+    return message_statelessness(prog, pkg="diameter.node", tag="struct.node-state-per-instance")
+
+
+def message_statelessness(prog, pkg="diameter.message", tag="struct.codec-stateless"):
     """struct.codec-stateless[...] (AST frame obligations on the package diameter.message): the codec functions keep no
     state between calls - (1) no function is memoised (functools.lru_cache / cache); (2) no function other than the
     documented registration functions (`register`) writes a module-level mutable object or a class-level mutable object
@@ -790,7 +798,7 @@ def message_statelessness(prog):
     out = []
     memo, writes = [], []
     for mod, tree in prog.modules.items():
-        if not (mod == "diameter.message" or mod.startswith("diameter.message.")):
+        if not (mod == pkg or mod.startswith(pkg + ".")):
             continue
         mod_mut = set()
         cls_mut = {}
@@ -870,7 +878,7 @@ def message_statelessness(prog):
                 if isinstance(n, ast.Call) and isinstance(n.func, ast.Attribute) and n.func.attr in MUTATORS \
                         and shared(n.func.value) and not (isinstance(n.func.value, ast.Name) and n.func.value.id in local):
                     writes.append(f"{mod}.{fn.name}:{n.lineno} {ast.unparse(n.func)[:60]}(...)")
-    out.append(GroundOb("struct.codec-stateless[no-memoised-function]", not memo, "; ".join(memo), backend="ast"))
-    out.append(GroundOb("struct.codec-stateless[no-write-to-module-or-class-level-objects]", not writes,
+    out.append(GroundOb(f"{tag}[no-memoised-function]", not memo, "; ".join(memo), backend="ast"))
+    out.append(GroundOb(f"{tag}[no-write-to-module-or-class-level-objects]", not writes,
                         "; ".join(writes[:8]), backend="ast"))
     return out
